@@ -80,6 +80,9 @@ pub fn choose(n: usize, label: &'static str) -> usize {
             }
         } else if pos >= s.budget || pos < s.zero_until {
             0
+        } else if label == "guest-act" && s.rng.usize(4) != 0 {
+            // random walks would otherwise finish the body after a step or two
+            1 + s.rng.usize(n - 1)
         } else {
             s.rng.usize(n)
         };
